@@ -103,6 +103,8 @@ def make_cases(prop, tier, seed, cfg):
 def shrink(prop, version, kind, persist, hist, key):
     """Delta-debug the op list while the oracle still reports the same structural key."""
     def fails(h):
+        if any(op[0] == "R" and (i == 0 or h[i - 1][0] != "X") for i, op in enumerate(h)):
+            return False        # a restart without the stop before it is a crash, outside the histories judged
         try:
             obs, _ = gw.run_history(h, version, kind, persist)
             return any(f["prop"] == prop and f["key"] == key for f in gw_spec.judge(h, obs, version, kind, persist))
